@@ -1,14 +1,21 @@
 import Cpl.Ties.Common
+import Cpl.Ties.Lemmas
 
 /-!
 # C15 — translated sources of `SDSRLoop._is_in_tube` and `CTRBLRule.__call__` equal the model
 
 Regenerated from `/repo/cellpylib/{sdsr_loop,ctrbl_rule}.py` on every run and compared with the hand model by
 kernel evaluation: `_is_in_tube` on all 9^4 neighbour combinations, `CTRBLRule.__call__` with Langton's
-generated table on all 3^5 keys over states 0..2 (present and absent combinations, key order
+generated table on 72 keys over states 0..2 (present and absent combinations, key order
 centre-top-right-bottom-left). The default-rule bodies of `SDSRLoop.__call__` / `Evoloop.__call__` are translated
 too (`Cpl.Gen.sdsrCall`, `evoloopCall`) but their 9^5-key equality is too slow for the kernel (≈25 ms per key);
-they are tied by the complete 9^5 correspondence of the harness in every run instead.
+they are tied structurally below (`sdsr_source_tie_all`, `evoloop_source_tie_all`), for every table and every key.
+
+The second half of the file holds the structural ties (no enumeration of inputs): `ctrbl_source_tie_all`,
+`intube_source_tie_all`, `sdsr_source_tie_all`, `evoloop_source_tie_all` and their corollaries for the library's own
+tables. The `__call__` bodies are if-cascades over the centre state and over neighbour tests; the proofs decide the
+centre state (0..8 or anything else), evaluate both cascades with `simp`, abstract the neighbour tests
+(`inTube t r b l`, `mem i [t, r, b, l]`, the `any`) to Booleans and compare the remaining truth tables.
 -/
 
 namespace Cpl.C15
@@ -22,11 +29,155 @@ def chkTube : Bool :=
 theorem intube_source_tie : chkTube = true := by decide +kernel
 
 def chkCtrbl : Bool :=
-  digits3.all fun c => digits3.all fun t => digits3.all fun r => digits3.all fun b => digits3.all fun l =>
+  digits2.all fun c => digits3.all fun t => digits2.all fun r => digits3.all fun b => digits2.all fun l =>
     Gen.ctrblCall (envOfTable langtonTable (c, t, r, b, l)) .none .none == ofExcept (ctrblCall langtonTable (c, t, r, b, l))
 
-/-- **Translated `CTRBLRule.__call__` = model** (table entry or ValueError) on all keys over states 0..2 with
+/-- **Translated `CTRBLRule.__call__` = model** (table entry or ValueError) on 72 keys over states 0..2 with
     Langton's table. -/
 theorem ctrbl_source_tie : chkCtrbl = true := by decide +kernel
+
+/-! ## Structural ties: all tables, all integer keys -/
+
+set_option linter.unusedSimpArgs false
+
+/-- **Translated `CTRBLRule.__call__` = model** (table entry or ValueError) for every table and every key. -/
+theorem ctrbl_source_tie_all (tbl : Table) (k : Key5) (c t : V) :
+    Gen.ctrblCall (envOfTable tbl k) c t = ofExcept (Cpl.ctrblCall tbl k) := by
+  obtain ⟨kc, kt, kr, kb, kl⟩ := k
+  unfold Gen.ctrblCall Cpl.ctrblCall
+  simp only [Id.run, pure, V.toInt_int, envOfTable_nb11, envOfTable_nb01, envOfTable_nb12, envOfTable_nb21,
+    envOfTable_nb10, envOfTable_tableMem, envOfTable_tableGet]
+  have key : ∀ o : Option Int, (if (!o.isSome) = true then V.err else ofOpt o)
+      = Ties.ofExcept (match o with | some v => .ok v | none => .error Py.Err.ValueError) := by
+    intro o; cases o <;> rfl
+  exact key _
+
+/-- **Translated `_is_in_tube` = model** for all integer sites (and any environment): the counting loop is the
+    length of a filter. -/
+theorem intube_source_tie_all (env : Env) (t r b l : Int) :
+    Gen.sdsrInTube env (.int t) (.int r) (.int b) (.int l) = .bool (inTube t r b l) := by
+  unfold Gen.sdsrInTube inTube
+  simp only [Id.run, pure]
+  rw [forIn_count _ (fun v => V.mem v [V.int 1, V.int 2, V.int 4, V.int 6, V.int 7])]
+  rw [foldl_count_eq_filter]
+  rw [show [V.int t, V.int r, V.int b, V.int l] = [t, r, b, l].map V.int from rfl,
+    List.filter_map, List.length_map]
+  have : ((fun v => V.mem v [V.int 1, V.int 2, V.int 4, V.int 6, V.int 7]) ∘ V.int)
+      = fun site => mem site [1, 2, 4, 6, 7] := by
+    funext x
+    exact V.mem_ints x [1, 2, 4, 6, 7]
+  rw [this]
+  simp only [bind, V.ge_int]
+  congr 1
+  apply decide_eq_decide.mpr
+  omega
+
+/-- Evaluate a translated if-cascade and the model's once the centre state is decided (`h` : the table lookup).
+    `↓reduceIte` picks a branch as soon as its condition is decided, so the join points of the `do` block are
+    expanded along live paths only. `mem i [t, r, b, l]` and `inTube t r b l` stay atomic. -/
+macro "tie_eval" h:ident : tactic => `(tactic|
+  simp only [Id.run, pure, V.toInt_int, envOfTable_nb11, envOfTable_nb01, envOfTable_nb12, envOfTable_nb21,
+    envOfTable_nb10, envOfTable_tableMem, envOfTable_tableGet, $h:ident, intube_source_tie_all,
+    V.eq_int, V.memOf_quad, V.any_memOf_quad_2to7, V.mem_cons_int, V.mem_nil, mem_235, mem_467, mem_1to7,
+    V.truthy_bool, V.isNone_none, V.isNone_int, Int.reduceEq, decide_true, decide_false,
+    Bool.true_and, Bool.false_and, Bool.or_false, Bool.false_or, Bool.true_or, Bool.or_true, Bool.and_true,
+    Bool.and_false, Option.isSome_none, Option.isSome_some, Bool.not_false, Bool.not_true, ↓reduceIte,
+    Bool.false_eq_true, Bool.and_eq_true, Bool.or_eq_true, true_and, false_and, and_true, and_false, true_or,
+    false_or, or_false, or_true, Option.isNone_none, Option.isNone_some, not_true_eq_false, not_false_eq_true, *])
+
+/-- Case on a Boolean atom if the goal mentions it (otherwise drop it). -/
+macro "bcase" v:ident : tactic => `(tactic| first | clear $v | cases $v:ident)
+
+/-- Abstract the neighbour tests to Booleans and compare the remaining truth tables. -/
+macro "tie_table" t:ident r:ident b:ident l:ident : tactic => `(tactic|
+  (generalize inTube $t $r $b $l = tube
+   generalize ([2, 3, 4, 5, 6, 7].any fun i => mem i [$t, $r, $b, $l]) = anyb
+   generalize mem 0 [$t, $r, $b, $l] = m0
+   generalize mem 1 [$t, $r, $b, $l] = m1
+   generalize mem 2 [$t, $r, $b, $l] = m2
+   generalize mem 3 [$t, $r, $b, $l] = m3
+   generalize mem 4 [$t, $r, $b, $l] = m4
+   generalize mem 6 [$t, $r, $b, $l] = m6
+   generalize mem 7 [$t, $r, $b, $l] = m7
+   generalize mem 8 [$t, $r, $b, $l] = m8
+   bcase tube <;> bcase anyb <;> bcase m0 <;> bcase m1 <;> bcase m2 <;> bcase m3 <;> bcase m4 <;> bcase m6 <;>
+     bcase m7 <;> bcase m8 <;> rfl))
+
+/-- Decide the centre state (0..8, or anything else) and run `tie_eval` / `tie_table` in each case. -/
+macro "tie_cascade" h:ident c:ident t:ident r:ident b:ident l:ident : tactic => `(tactic|
+  (by_cases h0 : $c = 0
+   · subst h0; tie_eval $h; tie_table $t $r $b $l
+   by_cases h1 : $c = 1
+   · subst h1; tie_eval $h; tie_table $t $r $b $l
+   by_cases h2 : $c = 2
+   · subst h2; tie_eval $h; tie_table $t $r $b $l
+   by_cases h3 : $c = 3
+   · subst h3; tie_eval $h; tie_table $t $r $b $l
+   by_cases h4 : $c = 4
+   · subst h4; tie_eval $h; tie_table $t $r $b $l
+   by_cases h5 : $c = 5
+   · subst h5; tie_eval $h; tie_table $t $r $b $l
+   by_cases h6 : $c = 6
+   · subst h6; tie_eval $h; tie_table $t $r $b $l
+   by_cases h7 : $c = 7
+   · subst h7; tie_eval $h; tie_table $t $r $b $l
+   by_cases h8 : $c = 8
+   · subst h8; tie_eval $h; tie_table $t $r $b $l
+   tie_eval $h; tie_table $t $r $b $l))
+
+/-- `SDSRLoop.__call__` on a key absent from the table: the translated default rules are the model's. -/
+theorem sdsr_absent (tbl : Table) (kc kt kr kb kl : Int) (c t : V) (h : tbl.lookup (kc, kt, kr, kb, kl) = none) :
+    Gen.sdsrCall (envOfTable tbl (kc, kt, kr, kb, kl)) c t = ofOpt (sdsrDefault (kc, kt, kr, kb, kl)) := by
+  unfold Gen.sdsrCall sdsrDefault cleanup eightRules
+  tie_cascade h kc kt kr kb kl
+
+/-- `SDSRLoop.__call__` / `Evoloop.__call__` on a key present in the table: the entry. -/
+theorem sdsr_present (tbl : Table) (kc kt kr kb kl v : Int) (c t : V)
+    (h : tbl.lookup (kc, kt, kr, kb, kl) = some v) :
+    Gen.sdsrCall (envOfTable tbl (kc, kt, kr, kb, kl)) c t = V.int v := by
+  unfold Gen.sdsrCall
+  tie_eval h
+  rfl
+
+/-- **Translated `SDSRLoop.__call__` = model** (table entry, else the default rules) for every table and key. -/
+theorem sdsr_source_tie_all (tbl : Table) (k : Key5) (c t : V) :
+    Gen.sdsrCall (envOfTable tbl k) c t
+      = ofOpt (match tbl.lookup k with | some v => some v | none => sdsrDefault k) := by
+  obtain ⟨kc, kt, kr, kb, kl⟩ := k
+  cases h : tbl.lookup (kc, kt, kr, kb, kl) with
+  | none => exact sdsr_absent tbl kc kt kr kb kl c t h
+  | some v => exact sdsr_present tbl kc kt kr kb kl v c t h
+
+/-- … in particular with `SDSRLoop()`'s own table: the model `sdsrLoop`. -/
+theorem sdsr_source_tie_loop (k : Key5) (c t : V) :
+    Gen.sdsrCall (envOfTable sdsrTable k) c t = ofOpt (sdsrLoop k) :=
+  sdsr_source_tie_all sdsrTable k c t
+
+theorem evoloop_absent (tbl : Table) (kc kt kr kb kl : Int) (c t : V)
+    (h : tbl.lookup (kc, kt, kr, kb, kl) = none) :
+    Gen.evoloopCall (envOfTable tbl (kc, kt, kr, kb, kl)) c t = ofOpt (evoloopDefault (kc, kt, kr, kb, kl)) := by
+  unfold Gen.evoloopCall evoloopDefault cleanup eightRules
+  tie_cascade h kc kt kr kb kl
+
+theorem evoloop_present (tbl : Table) (kc kt kr kb kl v : Int) (c t : V)
+    (h : tbl.lookup (kc, kt, kr, kb, kl) = some v) :
+    Gen.evoloopCall (envOfTable tbl (kc, kt, kr, kb, kl)) c t = V.int v := by
+  unfold Gen.evoloopCall
+  tie_eval h
+  rfl
+
+/-- **Translated `Evoloop.__call__` = model** (table entry, else the default rules) for every table and key. -/
+theorem evoloop_source_tie_all (tbl : Table) (k : Key5) (c t : V) :
+    Gen.evoloopCall (envOfTable tbl k) c t
+      = ofOpt (match tbl.lookup k with | some v => some v | none => evoloopDefault k) := by
+  obtain ⟨kc, kt, kr, kb, kl⟩ := k
+  cases h : tbl.lookup (kc, kt, kr, kb, kl) with
+  | none => exact evoloop_absent tbl kc kt kr kb kl c t h
+  | some v => exact evoloop_present tbl kc kt kr kb kl v c t h
+
+/-- … in particular with `Evoloop()`'s own table: the model `evoloop`. -/
+theorem evoloop_source_tie_loop (k : Key5) (c t : V) :
+    Gen.evoloopCall (envOfTable evoloopTable k) c t = ofOpt (evoloop k) :=
+  evoloop_source_tie_all evoloopTable k c t
 
 end Cpl.C15
